@@ -2,6 +2,12 @@
 """Applies every behaviour-preserving refactoring under /verif/harmless/*.diff to /repo in turn and runs EVERY claimed check (quick tier).
 A check may answer OK (exit 0) or UNDECIDED (exit 2: a lost anchor); exit 1 on a harmless change is a FALSE ALARM."""
 import glob, json, os, subprocess, sys
+# MATRIX_REPO=<scratch worktree of /repo HEAD>: patch and check THAT tree (own work directory), so /repo stays free
+REPO = os.environ.get("MATRIX_REPO", "/repo")
+if REPO != "/repo":
+    os.environ["VERIF_REPO"] = REPO
+    os.environ["VERIF_WORK"] = os.path.join(os.path.dirname(REPO.rstrip("/")), "work")
+    os.makedirs(os.environ["VERIF_WORK"], exist_ok=True)
 os.environ["VERIF_EVIDENCE_DIR"] = "/tmp/verif_seed_evidence"
 ROOT = "/verif"
 ids = [c["property_id"] for c in json.load(open(f"{ROOT}/MANIFEST.json"))["checks"]]
@@ -18,8 +24,8 @@ for d in sorted(glob.glob(f"{ROOT}/harmless/*.diff")):
     name = os.path.basename(d)[:-5]
     if only and name not in only:
         continue
-    subprocess.run(["git", "-C", "/repo", "checkout", "--", "."], check=True)
-    r = subprocess.run(["git", "-C", "/repo", "apply", d], capture_output=True, text=True)
+    subprocess.run(["git", "-C", REPO, "checkout", "--", "."], check=True)
+    r = subprocess.run(["git", "-C", REPO, "apply", d], capture_output=True, text=True)
     if r.returncode != 0:
         res[name] = "patch does not apply"
         print(name, res[name]); continue
@@ -34,7 +40,7 @@ for d in sorted(glob.glob(f"{ROOT}/harmless/*.diff")):
                 line = [l for l in c.stdout.splitlines() if l.startswith(("FAILED-OBLIGATION", "UNDECIDED"))]
                 out[p] = (c.returncode, line[0][:200] if line else "")
     finally:
-        subprocess.run(["git", "-C", "/repo", "checkout", "--", "."], check=True)
+        subprocess.run(["git", "-C", REPO, "checkout", "--", "."], check=True)
     alarms = {p: v for p, v in out.items() if v[0] == 1}
     und = {p: v for p, v in out.items() if v[0] == 2}
     res[name] = dict(false_alarms=alarms, undecided=und)
